@@ -91,6 +91,17 @@ FOCUS[9] = ("- THIS ROUND'S FOCUS: arithmetic and time semantics. At least one o
             "exception.")
 
 
+FOCUS[10] = ("- THIS ROUND'S FOCUS: lifecycle and call order. At least one of your two changes must only show when public calls are made in "
+             "an order, or at a point of an object's life, that differs from the one straight-line script: something queried BEFORE the first "
+             "update / first bar / first rebalance / run(); a method called twice in a row or never; run() called a second time on the same "
+             "session, or statistics requested between two runs; an object (broker, portfolio, data handler, signals, universe, schedule, sizer) "
+             "created late (after the clock has moved), re-configured after first use (an attribute or `settings` value changed mid-way), or "
+             "used by two owners at once (two sessions / two brokers / two portfolios sharing it); an operation that is legitimately a no-op "
+             "(zero amount, empty order list, empty universe, zero-length range) followed by a normal one; initialisation done lazily on first "
+             "use and therefore sensitive to WHICH call comes first; clean-up or reset code that runs at the end of one step and is skipped when "
+             "that step raises or returns early.")
+
+
 def rnd_of(i):
     m = re.search(r'-r(\d)$', i)
     return int(m.group(1)) if m else 1
